@@ -432,7 +432,7 @@ func genKC(t *rapid.T) kcCase {
 	var ml int
 	switch rapid.IntRange(0, 3).Draw(t, "modClass") {
 	case 0:
-		ml = rapid.SampledFrom([]int{1, 64, 128, 256, 512}).Draw(t, "modStd")
+		ml = rapid.SampledFrom([]int{1, 64, 128, 256, 512, 1024, 2048}).Draw(t, "modStd")
 	default:
 		ml = rapid.IntRange(1, 300).Draw(t, "modLen")
 	}
@@ -445,7 +445,14 @@ func genKC(t *rapid.T) kcCase {
 		}
 	}
 	c.KeySize = uint32(ml * 8)
-	switch rapid.IntRange(0, 5).Draw(t, "primes") {
+	switch rapid.IntRange(0, 6).Draw(t, "primes") {
+	case 2:
+		// private material of the key sizes in use (RSA-2048 .. RSA-8192: primes of 128 .. 512 bytes)
+		// and the lengths either side of the first one that needs a second length byte
+		std := []int{128, 255, 256, 257, 512}
+		l1, l2 := rapid.SampledFrom(std).Draw(t, "prime1Std"), rapid.SampledFrom(std).Draw(t, "prime2Std")
+		c.Prime1 = rapid.SliceOfN(rapid.Byte(), l1, l1).Draw(t, "p1")
+		c.Prime2 = rapid.SliceOfN(rapid.Byte(), l2, l2).Draw(t, "p2")
 	case 0:
 		pl := rapid.IntRange(1, 150).Draw(t, "primeLen")
 		c.Prime1 = rapid.SliceOfN(rapid.Byte(), pl, pl).Draw(t, "p1")
@@ -510,6 +517,24 @@ func genCKI(t *rapid.T) []byte {
 
 func kcNontrivial(c kcCase) bool { return len(c.Modulus) >= 16 }
 
+// genSmallKC: the same cases with the modulus cut to 128 bytes and each prime to 150, for the
+// sub-checks whose cost grows with the size of the blob (the sizes themselves are blob-roundtrip's and
+// foreign-blob-roundtrip's business).
+func genSmallKC(t *rapid.T) kcCase {
+	c := genKC(t)
+	if len(c.Modulus) > 128 {
+		c.Modulus = c.Modulus[:128]
+		c.KeySize = 1024
+	}
+	if len(c.Prime1) > 150 {
+		c.Prime1 = c.Prime1[:150]
+	}
+	if len(c.Prime2) > 150 {
+		c.Prime2 = c.Prime2[:150]
+	}
+	return c
+}
+
 func TestBlobRoundtrip(t *testing.T) {
 	s := vf.Begin(t, P, "blob-roundtrip")
 	vf.Rapid(s, vf.N(4000, 60000), genKC, checkBlob, kcNontrivial)
@@ -551,11 +576,30 @@ func checkFlips(c flipCase) []vf.Finding {
 		return []vf.Finding{vf.F("KeyCredential.ToBytes", "no-keyhash-entry", "")}
 	}
 	hashOff := start - len(stored)
+	// The verifier sees the credential as it is stored first, as it would in a directory where a
+	// tampered copy turns up later, and once more after all the corrupted ones: its verdict on a blob
+	// is a function of that blob, not of the blobs it has judged before.
+	intact := func(when string) []vf.Finding {
+		var kc keycredentiallink.KeyCredential
+		if err := kc.FromBytes(append([]byte{}, blob...)); err != nil {
+			return []vf.Finding{vf.F("KeyCredential.FromBytes", "own-blob-rejected", "%s the corrupted copies: %v", when, err)}
+		}
+		if !kc.CheckIntegrity() {
+			return []vf.Finding{vf.F("KeyCredential.CheckIntegrity", "intact-blob-fails-check", "%s the corrupted copies were judged", when)}
+		}
+		return nil
+	}
+	if fs := intact("before"); len(fs) > 0 {
+		return fs
+	}
 	if c.Bit >= 0 {
 		if c.Bit/8 >= len(blob) {
 			return nil
 		}
-		return flipOne(blob, c.Bit, start, hashOff, len(stored))
+		if fs := flipOne(blob, c.Bit, start, hashOff, len(stored)); len(fs) > 0 {
+			return fs
+		}
+		return intact("after")
 	}
 	// every bit of the key-hash entry (header included) and of everything after it
 	if flipCounter != nil {
@@ -566,7 +610,7 @@ func checkFlips(c flipCase) []vf.Finding {
 			return fs
 		}
 	}
-	return nil
+	return intact("after")
 }
 
 var flipCounter *vf.Sub
@@ -576,12 +620,7 @@ func TestBitflipExhaustive(t *testing.T) {
 	flipCounter = s
 	var flips int64
 	vf.Rapid(s, vf.N(300, 4000), func(t *rapid.T) flipCase {
-		c := genKC(t)
-		if len(c.Modulus) > 128 {
-			c.Modulus = c.Modulus[:128]
-			c.KeySize = 1024
-		}
-		return flipCase{c, -1}
+		return flipCase{genSmallKC(t), -1}
 	}, func(c flipCase) []vf.Finding {
 		fs := checkFlips(c)
 		if len(fs) > 0 && c.Bit < 0 {
@@ -815,6 +854,39 @@ type reuseCase struct {
 	A       kcCase `json:"previous"`
 	B       kcCase `json:"credential"`
 	Foreign bool   `json:"blobs_written_by_harness"`
+	// the distinguished names the two blobs travel with in their DN-with-binary form
+	DNA string `json:"previous_dn,omitempty"`
+	DNB string `json:"dn,omitempty"`
+}
+
+// dnText is the DN-with-binary string (LDAP syntax 1.2.840.113556.1.4.903) of a blob and a DN,
+// B:<number of hex digits>:<hex digits>:<dn>, written without the library.
+func dnText(blob []byte, dn string) []byte {
+	return []byte(fmt.Sprintf("B:%d:%X:%s", 2*len(blob), blob, dn))
+}
+
+// checkReuseDN: DNWithBinary.Parse is a method on a variable the caller may reuse as well (one
+// variable for all values of the attribute).
+func checkReuseDN(c reuseCase, blobA, blobB []byte) []vf.Finding {
+	var fresh, used keycredentiallink.DNWithBinary
+	if fresh.Parse(dnText(blobB, c.DNB)) != nil || used.Parse(dnText(blobA, c.DNA)) != nil {
+		return nil // acceptance is judged by the dnwithbinary sub-checks
+	}
+	who := "DNWithBinary.Parse"
+	if err := used.Parse(dnText(blobB, c.DNB)); err != nil {
+		return []vf.Finding{vf.F(who, "accepted-string-rejected-on-used-receiver", "%v", err)}
+	}
+	var fs []vf.Finding
+	if used.DistinguishedName != fresh.DistinguishedName {
+		fs = append(fs, vf.F(who, "dn-depends-on-previous-receiver-value", "%q, on a new variable %q (the variable held %q before)", used.DistinguishedName, fresh.DistinguishedName, c.DNA))
+	}
+	if !bytes.Equal(used.BinaryData, fresh.BinaryData) {
+		fs = append(fs, vf.F(who, "binary-data-depends-on-previous-receiver-value", "%d bytes, on a new variable %d (the variable held %d before); first difference at %d", len(used.BinaryData), len(fresh.BinaryData), len(blobA), diffAt(used.BinaryData, fresh.BinaryData)))
+	}
+	if u, f := used.ToString(), fresh.ToString(); len(fs) == 0 && u != f {
+		fs = append(fs, vf.F(who, "string-form-depends-on-previous-receiver-value", "%d characters, on a new variable %d", len(u), len(f)))
+	}
+	return fs
 }
 
 func (c reuseCase) blobs() (a, b []byte, err error) {
@@ -835,14 +907,15 @@ func checkReuse(c reuseCase) []vf.Finding {
 	if err != nil {
 		return []vf.Finding{vf.F("KeyCredential.ToBytes", "error", "%v", err)}
 	}
+	fs := checkReuseDN(c, blobA, blobB)
 	var fresh, used keycredentiallink.KeyCredential
 	if fresh.FromBytes(append([]byte{}, blobB...)) != nil || used.FromBytes(append([]byte{}, blobA...)) != nil {
-		return nil // acceptance is judged by the round-trip sub-checks
+		return fs // acceptance is judged by the round-trip sub-checks
 	}
-	var fs []vf.Finding
+	fsDN := len(fs)
 	who := "KeyCredential.FromBytes"
 	if err := used.FromBytes(append([]byte{}, blobB...)); err != nil {
-		return []vf.Finding{vf.F(who, "accepted-blob-rejected-on-used-receiver", "%v", err)}
+		return append(fs, vf.F(who, "accepted-blob-rejected-on-used-receiver", "%v", err))
 	}
 	dep := func(field string, format string, a ...any) {
 		fs = append(fs, vf.F(who, field+"-depends-on-previous-receiver-value", format, a...))
@@ -885,7 +958,7 @@ func checkReuse(c reuseCase) []vf.Finding {
 	// must serialise alike (a field difference already reported implies a different blob)
 	ub, uerr := used.ToBytes()
 	fb, ferr := fresh.ToBytes()
-	if len(fs) == 0 && ((uerr == nil) != (ferr == nil) || !bytes.Equal(ub, fb)) {
+	if len(fs) == fsDN && ((uerr == nil) != (ferr == nil) || !bytes.Equal(ub, fb)) {
 		d := diffAt(ub, fb)
 		dep("serialisation", "%d bytes (%v), on a new variable %d bytes (%v); first difference at %d", len(ub), uerr, len(fb), ferr, d)
 	}
@@ -894,17 +967,114 @@ func checkReuse(c reuseCase) []vf.Finding {
 
 func TestReceiverReuse(t *testing.T) {
 	s := vf.Begin(t, P, "receiver-reuse")
-	small := func(t *rapid.T) kcCase {
-		c := genKC(t)
-		if len(c.Modulus) > 128 {
-			c.Modulus = c.Modulus[:128]
-			c.KeySize = 1024
-		}
-		return c
-	}
 	vf.Rapid(s, vf.N(1500, 20000), func(t *rapid.T) reuseCase {
-		return reuseCase{A: small(t), B: small(t), Foreign: rapid.Bool().Draw(t, "foreign")}
+		return reuseCase{A: genSmallKC(t), B: genSmallKC(t), Foreign: rapid.Bool().Draw(t, "foreign"), DNA: genDNText(t), DNB: genDNText(t)}
 	}, checkReuse, func(c reuseCase) bool {
+		return kcNontrivial(c.A) && kcNontrivial(c.B) && !bytes.Equal(c.A.Modulus, c.B.Modulus)
+	})
+}
+
+// ---- results are values of their own -------------------------------------------------------------------
+//
+// "Serialises to a blob that parses back to the same ..." is a statement about the blob a caller
+// holds, and a caller holds it for as long as it likes (it collects the blobs of several credentials
+// before it writes the attribute): the bytes / text obtained for credential A must still be A's after
+// an unrelated credential B has been built, serialised, parsed, verified and put through the
+// DN-with-binary form in other variables. (A serialiser that fills one shared buffer and hands out
+// slices of it satisfies every one-credential round trip.)
+
+type keptResult struct {
+	who  string
+	live func() []byte // the result as it is now
+	snap []byte        // private copy taken when it was produced
+}
+
+func keepBytes(who string, b []byte) keptResult {
+	return keptResult{who, func() []byte { return b }, append([]byte{}, b...)}
+}
+
+func keepText(who string, s string) keptResult {
+	return keptResult{who, func() []byte { return []byte(s) }, []byte(strings.Clone(s))}
+}
+
+func checkIndependence(c reuseCase) []vf.Finding {
+	var kept []keptResult
+	// results for A ...
+	ka, _ := c.A.build()
+	blobA, err := ka.ToBytes()
+	if err != nil {
+		return []vf.Finding{vf.F("KeyCredential.ToBytes", "error", "%v", err)}
+	}
+	kept = append(kept, keepBytes("KeyCredential.ToBytes", blobA))
+	matA := c.A.material()
+	kept = append(kept, keepBytes("RSAKeyMaterial.ToBytes", matA.ToBytes()))
+	kept = append(kept, keepBytes("KeyCredential.ComputeKeyHash", ka.ComputeKeyHash()))
+	kept = append(kept, keepBytes("CustomKeyInformation.ToBytes", ka.CustomKeyInfo.ToBytes()))
+	kept = append(kept, keepBytes("DateTime.ToBytes", ka.CreationTime.ToBytes()))
+	kept = append(kept, keepText("ComputeKeyIdentifier", kcutils.ComputeKeyIdentifier(matA.ToBytes(), key.KeyCredentialVersion{Value: c.A.Version})))
+	dA := keycredentiallink.DNWithBinary{DistinguishedName: c.DNA, BinaryData: append([]byte{}, blobA...)}
+	kept = append(kept, keepText("DNWithBinary.ToString", dA.ToString()))
+	kept = append(kept, keepText("DNWithBinary.String", dA.String()))
+	// what a parse of A's blob (from a buffer of its own) hands out
+	var pa keycredentiallink.KeyCredential
+	if pa.FromBytes(append([]byte{}, blobA...)) == nil {
+		kept = append(kept, keepBytes("KeyCredential.FromBytes: KeyHash", pa.KeyHash))
+		kept = append(kept, keepBytes("KeyCredential.FromBytes: RawKeyMaterial.Modulus", pa.RawKeyMaterial.Modulus))
+		kept = append(kept, keepBytes("KeyCredential.FromBytes: RawKeyMaterial.Prime1", pa.RawKeyMaterial.Prime1))
+		kept = append(kept, keepBytes("KeyCredential.FromBytes: RawKeyMaterial.Prime2", pa.RawKeyMaterial.Prime2))
+		kept = append(kept, keepText("KeyCredential.FromBytes: Identifier", pa.Identifier))
+		if again, err := pa.ToBytes(); err == nil {
+			kept = append(kept, keepBytes("KeyCredential.ToBytes (parsed credential)", again))
+		}
+	}
+	var pd keycredentiallink.DNWithBinary
+	if pd.Parse(dnText(blobA, c.DNA)) == nil {
+		kept = append(kept, keepBytes("DNWithBinary.Parse: BinaryData", pd.BinaryData))
+		kept = append(kept, keepText("DNWithBinary.Parse: DistinguishedName", pd.DistinguishedName))
+	}
+
+	// ... then the whole life of an unrelated credential B in other variables ...
+	kb, _ := c.B.build()
+	blobB, err := kb.ToBytes()
+	if err != nil {
+		return []vf.Finding{vf.F("KeyCredential.ToBytes", "error", "%v", err)}
+	}
+	matB := c.B.material()
+	_ = matB.ToBytes()
+	_ = kb.ComputeKeyHash()
+	_ = kb.CustomKeyInfo.ToBytes()
+	_ = kb.CreationTime.ToBytes()
+	_ = kcutils.ComputeKeyIdentifier(matB.ToBytes(), key.KeyCredentialVersion{Value: c.B.Version})
+	var pb keycredentiallink.KeyCredential
+	if pb.FromBytes(append([]byte{}, blobB...)) == nil {
+		pb.CheckIntegrity()
+		pb.ToBytes()
+	}
+	dB := keycredentiallink.DNWithBinary{DistinguishedName: c.DNB, BinaryData: append([]byte{}, blobB...)}
+	_ = dB.String()
+	var pdb keycredentiallink.DNWithBinary
+	if pdb.Parse([]byte(dB.ToString())) == nil {
+		var viaDN keycredentiallink.KeyCredential
+		if viaDN.ParseDNWithBinary(pdb) == nil {
+			viaDN.CheckIntegrity()
+		}
+	}
+
+	// ... and A's results are what they were.
+	var fs []vf.Finding
+	for _, k := range kept {
+		if now := k.live(); !bytes.Equal(now, k.snap) {
+			fs = append(fs, vf.F(k.who, "result-changes-when-another-value-is-processed", "%d bytes for credential A, first difference at %d after credential B (%d-byte blob) was processed", len(k.snap), diffAt(now, k.snap), len(blobB)))
+		}
+	}
+	return fs
+}
+
+func TestResultIndependence(t *testing.T) {
+	s := vf.Begin(t, P, "result-independence")
+	vf.Rapid(s, vf.N(1500, 20000), func(t *rapid.T) reuseCase {
+		return reuseCase{A: genSmallKC(t), B: genSmallKC(t), DNA: genDNText(t), DNB: genDNText(t)}
+	}, checkIndependence, func(c reuseCase) bool {
 		return kcNontrivial(c.A) && kcNontrivial(c.B) && !bytes.Equal(c.A.Modulus, c.B.Modulus)
 	})
 }
